@@ -89,3 +89,25 @@ Proof. repeat split. Qed.
 Theorem C09_set_get_parameters_id : forall o sdn n, lookup n (set_parameters o (get_parameters o sdn)) = lookup n o.
 Proof. exact set_get_parameters_id. Qed.
 Print Assumptions C09_set_get_parameters_id.
+
+(* ---- extension: custom_objects and partial parameter dictionaries ---- *)
+Theorem C09_custom_objects_spec : forall d custom,
+  json_to_data_custom (data_to_json d) custom
+  = map (fun kv => (fst kv, match lookup_custom (fst kv) custom with Some v => v | None => snd kv end)) d.
+Proof. exact custom_objects_spec. Qed.
+Print Assumptions C09_custom_objects_spec.
+
+Theorem C09_custom_objects_none : forall d, json_to_data_custom (data_to_json d) [] = d.
+Proof. exact custom_objects_none. Qed.
+Print Assumptions C09_custom_objects_none.
+
+(* set_parameters(exact_match=False): exactly the given objects get the given state, everything else is unchanged *)
+Theorem C09_set_parameters_partial : forall o p n,
+  lookup n (set_parameters o p) = match lookup_param n p with Some sd => Some (AModule sd) | None => lookup n o end.
+Proof. exact set_parameters_partial. Qed.
+Print Assumptions C09_set_parameters_partial.
+
+Example C09_custom_objects_example :
+  json_to_data_custom (data_to_json [("gamma"%string, JFloat 1 false); ("net_arch"%string, JTuple [JInt 4])]) [("gamma"%string, JFloat 9 false)]
+  = [("gamma"%string, JFloat 9 false); ("net_arch"%string, JTuple [JInt 4])].
+Proof. reflexivity. Qed.
